@@ -987,7 +987,10 @@ class SyncObj(object):
             # Install snapshot
             else:
                 if not self.__serializer.setTransmissionData(serialized):
-                    # Incomplete snapshot - nothing in our log was verified, keep commit index
+                    # Incomplete snapshot - nothing in our log was verified, keep commit index.
+                    # Tell the leader that we are alive (as for the pieces of a big entry): a transfer can
+                    # take longer than leaderFallbackTimeout.
+                    self.__sendNextNodeIdx(node, success=False, reset=False)
                     return
                 snapshotIdx = self.__loadDumpFile(clearJournal=True)
                 if snapshotIdx is None:
@@ -1088,6 +1091,7 @@ class SyncObj(object):
         self.__connectedNodes.discard(node)
         self.__raftNextIndex.pop(node, None)
         self.__raftMatchIndex.pop(node, None)
+        self.__serializer.cancelTransmisstion(node)
         node._destroy()
 
     def __onNodeConnected(self, node):
@@ -1095,6 +1099,9 @@ class SyncObj(object):
 
     def __onNodeDisconnected(self, node):
         self.__connectedNodes.discard(node)
+        # Pieces of a snapshot that were on their way are lost: start over, also when the node is
+        # connected again before the next append_entries round would have noticed.
+        self.__serializer.cancelTransmisstion(node)
 
     def __getCurrentLogIndex(self):
         return self.__raftLog[-1][1]
